@@ -182,6 +182,27 @@ def run_pos(case) -> dict:
         f[f"C09:header-differs:{tag}"] = f"decoded header {got_h!r}; expected {want_h!r} (+{sorted(allowed_extra)})"
     if case["keymode"] in ("keyset", "keyset_single") and got_h.get("kid") != "the-key":
         f[f"C09:kid-of-chosen-key-missing:{tag}"] = f"decoded header {got_h!r} lacks kid 'the-key'"
+    # nothing is decoded unless the integrity check of the transport passes: the token with its signature / tag emptied or halved,
+    # or with the first character of the payload, ciphertext or IV segment changed, is refused
+    segs = token.split(".")
+
+    def swap(c):
+        return "B" if c != "B" else "C"
+    variants = {"last-empty": segs[:-1] + [""], "last-halved": segs[:-1] + [segs[-1][: len(segs[-1]) // 2]]}
+    body_i = 1 if len(segs) == 3 else 3
+    if segs[body_i]:
+        variants["body-changed"] = segs[:body_i] + [swap(segs[body_i][0]) + segs[body_i][1:]] + segs[body_i + 1:]
+        variants["body-changed+last-empty"] = variants["body-changed"][:-1] + [""]
+    if len(segs) == 5 and segs[2]:
+        variants["iv-changed+last-empty"] = segs[:2] + [swap(segs[2][0]) + segs[2][1:]] + segs[3:4] + [""]
+    for name, parts in variants.items():
+        if not segs[-1] and name.startswith("last"):
+            continue
+        try:
+            t2 = jwt.decode(".".join(parts), arg(dec_key, True), **kw)
+        except Exception:
+            continue
+        f[f"C09:tampered-token-decoded:{tag}:{name}"] = f"jwt.decode returned {t2.claims!r} for a token whose integrity cannot have been checked ({name}; {before.get('alg')}, {before.get('enc')})"
     return f
 
 
